@@ -24,6 +24,8 @@ def make(cfg):
     mode = cfg.get("mode", "raise")
 
     def fn():
+        if mode == "overflow":
+            symx.CTX.opts["downcast_overflow"] = True
         N = symx.symint("N")
         if H.IS_SYM:
             import z3
@@ -64,6 +66,7 @@ def make(cfg):
                         p.grad.view(-1)[0] = float("nan")
             before = [H.read(p) for p in run.params]
             c0 = len(stub.calls)
+            ev0 = len(symx.CTX.shared.get("overflow_events", [])) if H.IS_SYM else 0
             e = H.guarded_step(run)
             calls = stub.calls[c0:]
             # ---- reference outcome
@@ -96,6 +99,14 @@ def make(cfg):
                             break
                     if expect is not None:
                         break
+            if mode == "overflow" and expect is None:
+                # a root that overflows the storage dtype at this refresh is a non-finite computed root
+                if H.IS_SYM:
+                    fired = [bool(b) for b in symx.CTX.shared.get("overflow_events", [])[ev0:]]
+                else:
+                    fired = [bool(v) for k, v in (symx.CTX.values or {}).items() if str(k).startswith("overflow_")] if refresh else []
+                if any(fired):
+                    expect = "nonfinite"
             from distributed_shampoo.shampoo_types import PreconditionerValueError
 
             got = None if e is None else ("nonfinite" if isinstance(e, PreconditionerValueError) else ("tolerance" if isinstance(e, ValueError) and "tolerance" in str(e) else f"other:{type(e).__name__}: {str(e)[:80]}"))
@@ -153,6 +164,8 @@ def jobs_for(tier):
     for md in ("nan", "inf", "nangrad"):
         add(params=[(2, 2), (2,)], mpd=2, merge=False, pf=1, sps=1, T=2, rebase=True, presence="symbolic", mode=md, fixed=fixed)
         add(params=[(2, 2), (2,)], mpd=2, merge=False, pf=1, sps=1, T=2, rebase=True, mode=md, fixed=fixed, precond="soap_qr")
+    # mixed dtypes: a finite float32 root may overflow the (lower precision) storage dtype -> must be caught before it is stored
+    add(params=[(2, 2), (2,)], mpd=2, merge=False, pf=1, sps=1, T=2, rebase=True, mode="overflow", fixed=fixed, pdtype="float16", fdtype="float32")
     if tier == "thorough":
         add(params=[(2,), (2,), (2,)], mpd=2, merge=False, pf=2, sps=2, T=4, rebase=True, presence="symbolic", mode="raise", fixed=fixed, maxN=2)
         add(params=[(2, 2), (2,)], mpd=2, merge=False, pf=1, sps=1, T=3, rebase=True, presence="symbolic", mode="raise", fixed=fixed, precond="soap_eigh")
